@@ -595,6 +595,90 @@ func cmdReplay(args []string) int {
 	return 0
 }
 
+// runBoundedOne runs one bounded stand-in: name = "<dir under /verif/bounded>:<package dir in the
+// repo>:<harness file>[:<package name to substitute for PKG>]". The harness is an in-package test
+// injected through go test -overlay (nothing is written into the repository); it prints one
+// "BOUNDED-FAIL class=.. input=.. observed=.." line per failing case and "BOUNDED cases=N".
 func runBoundedOne(name, tier string, seed int) BoundedResult {
-	return BoundedResult{Name: name, Error: "unknown bounded stand-in"}
+	res := BoundedResult{Name: name}
+	parts := strings.Split(name, ":")
+	if len(parts) < 3 {
+		res.Error = "malformed bounded stand-in name"
+		return res
+	}
+	dir, pkgDir, file := parts[0], parts[1], parts[2]
+	data, err := os.ReadFile(filepath.Join(verifRoot, "bounded", dir, file))
+	if err != nil {
+		res.Error = err.Error()
+		return res
+	}
+	src := string(data)
+	if len(parts) > 3 {
+		src = strings.Replace(src, "package PKG", "package "+parts[3], 1)
+	}
+	for _, l := range strings.Split(src, "\n") {
+		if strings.HasPrefix(l, "// Domain:") {
+			res.Bound = strings.TrimSpace(strings.TrimPrefix(l, "// Domain:"))
+		}
+	}
+	work, err := os.MkdirTemp("", "govc-bounded")
+	if err != nil {
+		res.Error = err.Error()
+		return res
+	}
+	defer os.RemoveAll(work)
+	testFile := filepath.Join(work, "zz_verif_bounded_test.go")
+	os.WriteFile(testFile, []byte(src), 0o644)
+	ov := map[string]map[string]string{"Replace": {filepath.Join(repoRoot, pkgDir, "zz_verif_bounded_test.go"): testFile}}
+	ovData, _ := json.Marshal(ov)
+	ovFile := filepath.Join(work, "overlay.json")
+	os.WriteFile(ovFile, ovData, 0o644)
+	args := []string{"test", "-overlay", ovFile, "-vet=off", "-count=1", "-timeout", "180s", "-run", "TestVerifBoundedC16$", "-v", "./" + pkgDir}
+	cmd := exec.Command("go", args...)
+	cmd.Dir = repoRoot
+	cmd.Env = append(os.Environ(), "GOFLAGS=-mod=mod", "GOPROXY=off", "GOSUMDB=off", "GOTOOLCHAIN=local")
+	out, _ := cmd.CombinedOutput()
+	replay := fmt.Sprintf("bin/govc check C16   (harness /verif/bounded/%s/%s injected into %s)", dir, file, pkgDir)
+	seen := map[string]bool{}
+	for _, l := range strings.Split(string(out), "\n") {
+		l = strings.TrimSpace(l)
+		switch {
+		case strings.HasPrefix(l, "BOUNDED-FAIL "):
+			f := BoundedFailure{ReplayCmd: replay}
+			rest := strings.TrimPrefix(l, "BOUNDED-FAIL ")
+			if i := strings.Index(rest, " input="); i >= 0 {
+				f.Class = strings.TrimPrefix(rest[:i], "class=")
+				rest = rest[i+7:]
+				if j := strings.LastIndex(rest, " observed="); j >= 0 {
+					f.Input = rest[:j]
+					f.Observed = rest[j+10:]
+				} else {
+					f.Input = rest
+				}
+			} else {
+				f.Class = rest
+			}
+			// one failure per class and stand-in is reported (the first input that shows it)
+			if !seen[f.Class] {
+				seen[f.Class] = true
+				res.Failures = append(res.Failures, f)
+			}
+		case strings.HasPrefix(l, "BOUNDED cases="):
+			fmt.Sscanf(l, "BOUNDED cases=%d", &res.Cases)
+		}
+	}
+	res.Distinct = res.Cases
+	if res.Cases == 0 {
+		res.Error = "the harness did not run to completion: " + lastLines(string(out), 6)
+	}
+	res.Samples = []interface{}{map[string]interface{}{"stand_in": name, "cases": res.Cases, "domain": res.Bound}}
+	return res
+}
+
+func lastLines(s string, n int) string {
+	ls := strings.Split(strings.TrimSpace(s), "\n")
+	if len(ls) > n {
+		ls = ls[len(ls)-n:]
+	}
+	return strings.Join(ls, " | ")
 }
